@@ -827,7 +827,7 @@ class T_l2:
             p = [rq(rng, kind), rq(rng, kind)]
             if p not in pts:
                 pts.append(p)
-        nv = [0, 1, 2][(k // 2) % 3]
+        nv = [0, 1][(k // 2) % 2]     # minimize_triangle_surface_loss is defined for one output component only
         vals = [[rq(rng, kind) for _ in range(nv)] if nv else rq(rng, kind) for _ in range(n)]
         return {"pts": pts, "vals": vals}
 
